@@ -214,6 +214,8 @@ def parse_cbmc_text(out):
 
 def cbmc_cmd(gotobin, ob):
     flags = list(CBMC_FLAGS)
+    if ob.get('no_pointer_check'):
+        flags = [f for f in flags if f not in ('--pointer-check', '--pointer-overflow-check')]
     if ob.get('object_bits'):
         flags[flags.index('--object-bits') + 1] = str(ob['object_bits'])
     cmd = ['cbmc', gotobin, '--function', ob['fn']] + flags
